@@ -74,13 +74,19 @@ fn check(node: &Node, log: &Log) -> bool {
 
 fn history(k: usize) {
     // all symbolic inputs first (replay convention, DESIGN.md 3.6)
-    let kinds: [u8; 6] = kani::any();
-    let wait_s: [u64; 6] = kani::any();
-    let wait_ns: [u32; 6] = kani::any();
+    let kinds_raw: [u8; 6] = kani::any();
+    let wait_s_raw: [u16; 6] = kani::any();
+    let wait_ns_raw: [u32; 6] = kani::any();
     let first_is_answer: bool = kani::any();
+    let mut kinds = [0u8; 6];
+    let mut wait_s = [0u64; 6];
+    let mut wait_ns = [0u32; 6];
     for i in 0..6 {
-        kani::assume(kinds[i] < 5);
-        kani::assume(wait_s[i] <= 40 * 60 && wait_ns[i] < 1_000_000_000);
+        // every raw value is a valid choice (keeps the native sanity runs useful): waits of
+        // 0..=4095 s (68 min) plus 0..999_999_999 ns
+        kinds[i] = kinds_raw[i] % 5;
+        wait_s[i] = (wait_s_raw[i] & 0xfff) as u64;
+        wait_ns[i] = wait_ns_raw[i] % 1_000_000_000;
     }
     clock::start_symbolic();
 
@@ -243,12 +249,10 @@ pub(crate) fn symbolic_slot(id: NodeId, addr: SocketAddr) -> Node {
 pub(crate) fn symbolic_slot_with(id: NodeId, addr: SocketAddr, coarse: bool) -> Node {
     let never_answered: bool = kani::any();
     let has_req: bool = kani::any();
-    let refresh: usize = kani::any();
-    kani::assume(refresh <= 3);
+    let refresh: usize = (kani::any::<u8>() & 3) as usize;
     let (resp_age, req_age) = if coarse {
-        let a: u8 = kani::any();
-        let b: u8 = kani::any();
-        kani::assume(a < 4 && b < 4);
+        let a: u8 = kani::any::<u8>() & 3;
+        let b: u8 = kani::any::<u8>() & 3;
         const AGES: [u64; 4] = [0, 899, 900, 3600];
         (AGES[a as usize], AGES[b as usize])
     } else {
